@@ -74,9 +74,12 @@ def rule_a_list_walks(repo: Repo, rep: Report) -> None:
     # ------------------------------------------------------------------ (a)
     rep.rule("C03.a-list-walk-terminates",
              "every while-loop in rdflib/plugins/serializers, rdflib/collection.py and Graph.items whose cursor is "
-             "reassigned from its own rdf:rest is bounded (counter), guarded (visited set whose hit leaves the loop), "
+             "reassigned from its own rdf:rest is bounded (counter), guarded (visited set whose hit leaves the loop - a set of the function, or one kept by an object of a class of "
+             "the package whose method, handed the cursor in the loop, raises on a node it was handed before and remembers the others), "
              "consumes the link, or lives in a function whose every call site is inside `if <validator>(same arg):` "
              "with a guarded validator (the `if` in the caller, or - the list head being handed down as a parameter - in every caller of the caller)", floor=8)
+    from vlib.h_c03 import visited_guard_object
+
     scope = []
     for name, mod in repo.modules.items():
         if name.startswith("rdflib.plugins.serializers.") or name == "rdflib.collection":
@@ -92,7 +95,9 @@ def rule_a_list_walks(repo: Repo, rep: Report) -> None:
             nloops += 1
             why = loops.link_walk_guard(loop, cur, f)
             if why is None:
-                why = _validator_guard(mod, q, f, cur)
+                why = visited_guard_object(repo, mod, f, loop, cur)
+            if why is None:
+                why = _validator_guard(repo, mod, q, f, cur)
             rep.ob("C03.a-list-walk-terminates", mod, q, "while %s: ... %s = rdf:rest of %s" % (norm(loop.test), cur, cur), why is not None,
                    why or "no counter, visited-set guard, link removal or guarded validator: serialisation never ends on a cyclic rdf:rest chain", node=loop)
 
@@ -148,7 +153,8 @@ def escape_table_rules(repo: Repo, rep: Report, RULE: str) -> None:
     rep.rule(RULE,
              "the string escape maps of the N-Triples writer (the function NTSerializer.serialize reaches that rewrites characters by a constant map: "
              "a chain of str.replace, applied in sequence, or a str.translate table / per-character lookup, applied in one pass) and of the Turtle-family writer "
-             "(Literal._quote_encode) double the backslash before any escape is written (or in the same pass), cover the raw-forbidden characters of their quoting "
+             "(Literal._quote_encode: what it can reach when `'\\n' in self` is false is the \"...\" form, what it can reach when it is true the triple-quoted form, which also takes a "
+             "decision on `the last character is a double quote`) double the backslash before any escape is written (or in the same pass), cover the raw-forbidden characters of their quoting "
              "form, and emit only escapes that the readers' table (compat._string_escape_map + the ECHAR class of "
              "_turtle_escape_pattern, ntriples.r_quot) decodes to the original character", floor=8)
     compat = repo.mod("rdflib.compat")
@@ -212,7 +218,7 @@ def escape_table_rules(repo: Repo, rep: Report, RULE: str) -> None:
     ntw = repo.mod("rdflib.plugins.serializers.nt")
     found = []
     for q in module_call_closure(ntw, ["NTSerializer.serialize"]):
-        for em in escape_maps(ntw, ntw.defs[q]):
+        for em in escape_maps(ntw, ntw.defs[q], repo=repo):
             found.append((q, em))
     if not found:
         raise AnalysisError("nt: no escape map (chain of str.replace / str.translate table) found in what NTSerializer.serialize calls")
@@ -223,41 +229,70 @@ def escape_table_rules(repo: Repo, rep: Report, RULE: str) -> None:
     term = repo.mod("rdflib.term")
     f = term.func("Literal._quote_encode")
     rep.analysed("rdflib/term.py:Literal._quote_encode")
-    # locate `if "\n" in self:` ; orelse = single-line form, body = triple-quoted form
-    top = [s for s in f.body if isinstance(s, ast.If)]
-    sel = None
-    for s in top:
-        t = s.test
-        if isinstance(t, ast.Compare) and isinstance(t.left, ast.Constant) and t.left.value == "\n" and isinstance(t.ops[0], ast.In):
-            sel = s
-    if sel is None:
-        raise AnalysisError("Literal._quote_encode: `if '\\n' in self` selector not found")
-    # single-line form: chains in what runs when the test is false - the else branch, or, when the triple-quoted branch never falls
-    # through, the statements that follow the `if`; replacements of "\n" are dead there (folded away)
-    from vlib.h_c03 import terminates
+    # the two quoting forms are the two sides of the function's decision on `"\n" in self`: what control can reach when that is false is the
+    # single-line form "...", what it can reach when it is true the triple-quoted form - however the decision is written (if / else either way
+    # round, `not in`, a guard clause that returns, a flag); a replacement that both sides reach belongs to both
+    from vlib.h_c03 import local_defs, params, reachable_nodes
 
-    single_line = list(sel.orelse)
-    if not single_line and terminates(sel.body):
-        single_line = f.body[f.body.index(sel) + 1:]
-    maps = escape_maps(term, f, within=single_line)
+    me = params(f)[0]
+
+    def newline_atom(value: bool):
+        def atom(e: ast.AST, depth: int = 2):
+            if isinstance(e, ast.Compare) and len(e.ops) == 1 and isinstance(e.left, ast.Constant) and e.left.value == "\n" and norm(e.comparators[0]) in (me, "str(%s)" % me):
+                if isinstance(e.ops[0], ast.In):
+                    return value
+                if isinstance(e.ops[0], ast.NotIn):
+                    return not value
+            if isinstance(e, ast.Name) and depth and e.id != me:
+                ds = local_defs(f, e.id)
+                if len(ds) == 1:
+                    return atom(ds[0], depth - 1)
+            return None
+        return atom
+
+    g, multi = reachable_nodes(f, newline_atom(True))
+    _, single = reachable_nodes(f, newline_atom(False), g)
+    if not (single - multi) or not (multi - single):
+        raise AnalysisError("Literal._quote_encode: `if '\\n' in self` selector not found")
+    all_maps = [(m_, g.node_of(m_.node, term)) for m_ in escape_maps(term, f, min_chain=1, repo=repo)]
+    # single-line form: the replacements in the order in which they are applied (statement order, within a chain innermost first);
+    # replacements of "\n" are dead there (folded away)
+    maps = [m_ for m_, nid in all_maps if nid in single]
     if not maps:
         raise AnalysisError("Literal._quote_encode: single-line escape map (chain of str.replace / str.translate table) not found")
-    best = max(maps, key=lambda m_: len(m_.pairs))
-    ch = [(a, b) for a, b in best.pairs if a != "\n"]  # "\n" not in self on this branch: no-op
-    check_chain(term, "Literal._quote_encode", ch, {"\\", "\r", '"'}, 'Turtle "..." (no newline in value)', best.node, simultaneous=best.simultaneous)
-    # triple-quoted form: a sequence of statements; the replacements in the order in which they are applied (statement order, within a chain
-    # innermost first; a one-pass table counts as its replacements with the backslash first)
+    one_pass = len(maps) == 1 and maps[0].simultaneous
+    ch = [(a, b) for m_ in maps for a, b in (m_.pairs if one_pass else m_.as_sequence()) if a != "\n"]  # "\n" not in self on this side: no-op
+    check_chain(term, "Literal._quote_encode", ch, {"\\", "\r", '"'}, 'Turtle "..." (no newline in value)', maps[0].node, simultaneous=one_pass)
+    # triple-quoted form: a sequence of statements; a one-pass table counts as its replacements with the backslash first
+    tmaps = [m_ for m_, nid in all_maps if nid in multi]
     seq: list[tuple[str, str]] = []
-    for m_ in escape_maps(term, f, min_chain=1, within=list(sel.body)):
+    for m_ in tmaps:
         seq += m_.as_sequence()
     if not seq:
         raise AnalysisError("Literal._quote_encode: triple-quoted replace sequence not found")
-    check_chain(term, "Literal._quote_encode", seq, {"\\", "\r", '"""'}, 'Turtle """..."""', sel)
-    # trailing quote handling: a value ending in a quote must not run into the closing delimiter
-    tail = any(isinstance(n, ast.If) and "[-1]" in norm(n.test) and '"' in norm(n.test) for s in sel.body for n in ast.walk(s))
+    tnode = tmaps[0].node
+    check_chain(term, "Literal._quote_encode", seq, {"\\", "\r", '"""'}, 'Turtle """..."""', tnode)
+    # trailing quote handling: a value ending in a quote must not run into the closing delimiter: on the triple-quoted side a decision is taken
+    # on `the last character is a double quote` (x[-1] == '"', x[-1:] == '"', x.endswith('"'))
+
+    def _minus_one(e: ast.AST) -> bool:
+        return (isinstance(e, ast.UnaryOp) and isinstance(e.op, ast.USub) and isinstance(e.operand, ast.Constant) and e.operand.value == 1) or (isinstance(e, ast.Constant) and e.value == -1)
+
+    def ends_with_quote(e: ast.AST) -> bool:
+        if isinstance(e, ast.Compare) and len(e.ops) == 1 and isinstance(e.ops[0], (ast.Eq, ast.NotEq, ast.In, ast.NotIn)):
+            for a, b in ((e.left, e.comparators[0]), (e.comparators[0], e.left)):
+                if isinstance(b, ast.Constant) and b.value == '"' and isinstance(a, ast.Subscript) and (
+                        _minus_one(a.slice) or (isinstance(a.slice, ast.Slice) and a.slice.lower is not None and _minus_one(a.slice.lower) and a.slice.upper is None and a.slice.step is None)):
+                    return True
+        if isinstance(e, ast.Call) and isinstance(e.func, ast.Attribute) and e.func.attr == "endswith" and len(e.args) == 1 and not e.keywords:
+            a = e.args[0]
+            return (isinstance(a, ast.Constant) and a.value == '"') or (isinstance(a, ast.Tuple) and bool(a.elts) and all(isinstance(x, ast.Constant) and x.value == '"' for x in a.elts))
+        return False
+
+    tail = any(isinstance(n, ast.If) and id(n) in g.by_ast and g.by_ast[id(n)] in multi and any(ends_with_quote(x) for x in ast.walk(n.test)) for n in own_nodes(f))
     rep.ob(RULE, term, "Literal._quote_encode", 'Turtle """...""": trailing quote escaped', tail,
            "a value ending in a double quote is escaped before the closing delimiter" if tail else
-           'a value ending in " would merge with the closing """', node=sel)
+           'a value ending in " would merge with the closing """', node=tnode)
 
 
 def _pred_obj_walks(fn: ast.AST):
@@ -282,11 +317,12 @@ def _pred_obj_walks(fn: ast.AST):
                                             return
 
 
-def _validator_guard(mod, q: str, f: ast.FunctionDef, cur: str) -> str | None:
-    """(iv) every call site of this method is made for a list head that `self.<V>(<same node>)` has accepted - the call sits inside
-    `if self.<V>(arg):`, or the head is handed down as a parameter by a method every call of which does - where V walks the same
+def _validator_guard(repo: Repo, mod, q: str, f: ast.FunctionDef, cur: str) -> str | None:
+    """(iv) every call site of this method is made for a list head that `self.<V>(<same node>)` has accepted - `self.<V>(arg)` is known
+    to have answered true at the call (h_c03.enclosing_validator: inside `if self.<V>(arg):`, in the else of `if not self.<V>(arg):`, after
+    a guard clause ...), or the head is handed down as a parameter by a method every call of which does - where V walks the same
     parameter with a guard."""
-    from vlib.h_c03 import arg_of, params, validators_of
+    from vlib.h_c03 import arg_of, params, validators_of, visited_guard_object
 
     if cur not in params(f)[1:]:
         return None
@@ -301,7 +337,7 @@ def _validator_guard(mod, q: str, f: ast.FunctionDef, cur: str) -> str | None:
         if not mod.has(vq):
             return False
         vf = mod.func(vq)
-        return any(vcur in params(vf) and loops.link_walk_guard(vloop, vcur, vf) for vloop, vcur in loops.link_walk_loops(vf))
+        return any(vcur in params(vf) and (loops.link_walk_guard(vloop, vcur, vf) or visited_guard_object(repo, mod, vf, vloop, vcur)) for vloop, vcur in loops.link_walk_loops(vf))
 
     sites = sites_of(f)
     if not sites:
@@ -428,7 +464,8 @@ def run(repo: Repo, rep: Report) -> None:  # noqa: F811
     rep.rule("C03.j-prettyxml-collection-validator",
              "PrettyXMLSerializer.predicate writes parseType=\"Collection\" (which records only the members, as node elements) only under the result of a validator method whose "
              "walk rejects a chain unless every cell is a blank node, has no other referrer, has exactly rdf:first and rdf:rest, and its member is not a literal (a literal cannot "
-             "be a node element); and it marks every cell of the chain as written, not only the head (otherwise the inner cells are emitted a second time)", floor=5)
+             "be a node element); and it marks every cell of the chain as written, not only the head (otherwise the inner cells are emitted a second time) - "
+             "in the set that subject() consults and fills before it writes a description (`if subject not in self.<A>: self.<A>[subject] = ...`), by a loop over the validator's result or one update() with an entry per cell", floor=5)
     rx = repo.mod("rdflib.plugins.serializers.rdfxml")
     pf = rx.func("PrettyXMLSerializer.predicate")
     attrs = [c for c in own_nodes(pf) if isinstance(c, ast.Call) and norm(c.func).endswith(".attribute") and len(c.args) == 2 and isinstance(c.args[1], ast.Constant) and c.args[1].value == "Collection"]
@@ -477,7 +514,39 @@ def run(repo: Repo, rep: Report) -> None:  # noqa: F811
         )
         for ok, what, why in conds:
             rep.ob("C03.j-prettyxml-collection-validator", rx, q, what, ok, "rejected by the validator" if ok else why, node=f)
-        marks_all = any(isinstance(l, (ast.For,)) and var in norm(l.iter) and any(isinstance(a, ast.Assign) and "__serialized[" in norm(a.targets[0]) and norm(l.target) in norm(a.targets[0]) for a in ast.walk(l)) for l in ast.walk(guard))
+        # the written-set of the class, by what it does: the `self.<A>` that subject() - which writes the description of a node - stores its node
+        # under where the node is known not to be in it yet (`if subject not in self.A: self.A[subject] = ...`)
+        from vlib.h_c03 import facts_at as _facts_at, params as _params
+
+        sf_ = rx.func("PrettyXMLSerializer.subject")
+        written = set()
+        for st_ in own_nodes(sf_):
+            if isinstance(st_, ast.Subscript) and isinstance(st_.ctx, ast.Store) and isinstance(st_.slice, ast.Name) and st_.slice.id in _params(sf_)[1:] \
+                    and isinstance(st_.value, ast.Attribute) and norm(st_.value.value) == "self":
+                for e_, pol_ in _facts_at(rx, sf_, st_):
+                    if isinstance(e_, ast.Compare) and len(e_.ops) == 1 and norm(e_.left) == st_.slice.id and norm(e_.comparators[0]) == norm(st_.value) \
+                            and ((isinstance(e_.ops[0], ast.NotIn) and pol_) or (isinstance(e_.ops[0], ast.In) and not pol_)):
+                        written.add(norm(st_.value))
+        if not written:
+            raise AnalysisError("PrettyXMLSerializer.subject: the set of written nodes (`if subject not in self.<A>: self.<A>[subject] = ...`) was not found")
+        marks_all = any(isinstance(l, (ast.For,)) and var in {x.id for x in ast.walk(l.iter) if isinstance(x, ast.Name)} and isinstance(l.target, ast.Name)
+                        and any(isinstance(a, ast.Subscript) and isinstance(a.ctx, ast.Store) and norm(a.value) in written and norm(a.slice) == l.target.id for a in ast.walk(l))
+                        for l in ast.walk(guard))
+
+        def _every_cell(x: ast.AST) -> bool:
+            """x has one entry per cell of the validator's result: the result itself, dict.fromkeys(result, ...), {c: ... for c in result}"""
+            if isinstance(x, ast.Name):
+                return x.id == var
+            if isinstance(x, ast.Call) and norm(x.func) == "dict.fromkeys" and x.args:
+                return _every_cell(x.args[0])
+            if isinstance(x, (ast.DictComp, ast.SetComp, ast.ListComp, ast.GeneratorExp)) and len(x.generators) == 1 and not x.generators[0].ifs and isinstance(x.generators[0].target, ast.Name) \
+                    and _every_cell(x.generators[0].iter):
+                k = x.key if isinstance(x, ast.DictComp) else x.elt
+                return isinstance(k, ast.Name) and k.id == x.generators[0].target.id
+            return False
+        # (the same in one call: self.<A>.update(<an entry per cell>))
+        marks_all = marks_all or any(isinstance(c_, ast.Call) and isinstance(c_.func, ast.Attribute) and c_.func.attr == "update" and norm(c_.func.value) in written and len(c_.args) == 1
+                                     and not c_.keywords and _every_cell(c_.args[0]) for c_ in ast.walk(guard))
         rep.ob("C03.j-prettyxml-collection-validator", rx, "PrettyXMLSerializer.predicate", "every cell of the chain is marked written", marks_all,
                "" if marks_all else "only the head cell is marked: the remaining cells are written again as top-level descriptions (extra triples after parsing)", node=guard)
 
